@@ -183,3 +183,44 @@ Proof.
   - repeat (apply Forall_cons; [first [exact I | split; vm_compute; reflexivity]|]). apply Forall_nil.
   - vm_compute. eexists. repeat split.
 Qed.
+
+(* ---- at the level of the keys (Proofs/EditKeys.v): in the editing state the Backspace key removes the symbol before
+   the cursor, the Delete key the symbol at it, and the key that completes a syllable inserts it exactly at the
+   cursor and advances the cursor by one - for every layout, dictionary and conversion - while phonetic buffer,
+   dictionary, options, engine, alternative index, commit string and notice stay as they were ---- *)
+From LC Require Import Proofs.EditKeys.
+
+Theorem C05_backspace_key : forall D SY (dops : dict_ops D) (sops : syl_ops SY) conv (s s' : shared D SY) ev t,
+  wf_ce (com s) -> kcode ev = kc_Backspace -> entering_next dops sops conv s ev = Ok (s', t) ->
+  (ce_is_empty (com s) = true /\ s' = s /\ t = Spin BIgnore) \/
+  (ce_is_empty (com s) = false /\ t = Spin BAbsorb /\ wf_ce (com s') /\ rest_eq s' s /\
+   cursor_stack (com s') = cursor_stack (com s) /\
+   ((cursor (com s) = 0 /\ com s' = com s) \/
+    (0 < cursor (com s) /\ symbols (inner (com s')) = remove_at (cursor (com s) - 1) (symbols (inner (com s))) /\
+     cursor (com s') = cursor (com s) - 1))).
+Proof. intros D SY dops sops conv s s' ev t. exact (backspace_key dops sops conv s ev s' t). Qed.
+Print Assumptions C05_backspace_key.
+
+Theorem C05_delete_key : forall D SY (dops : dict_ops D) (sops : syl_ops SY) conv (s s' : shared D SY) ev t,
+  wf_ce (com s) -> kcode ev = kc_Del -> entering_next dops sops conv s ev = Ok (s', t) ->
+  (ce_is_end (com s) = true /\ s' = s /\ t = Spin BIgnore) \/
+  (ce_is_end (com s) = false /\ t = Spin BAbsorb /\ wf_ce (com s') /\ rest_eq s' s /\
+   cursor_stack (com s') = cursor_stack (com s) /\
+   symbols (inner (com s')) = remove_at (cursor (com s)) (symbols (inner (com s))) /\
+   cursor (com s') = cursor (com s)).
+Proof. intros D SY dops sops conv s s' ev t. exact (delete_key dops sops conv s ev s' t). Qed.
+Print Assumptions C05_delete_key.
+
+Theorem C05_completed_syllable_goes_in_at_the_cursor : forall D SY (dops : dict_ops D) (sops : syl_ops SY) (s s' : shared D SY) ev t sy,
+  wf_ce (com s) ->
+  N.eqb (kcode ev) kc_Backspace = false -> (N.eqb (kcode ev) kc_Unknown && mcaps ev) = false -> N.eqb (kcode ev) kc_Esc = false ->
+  (if o_fuzzy (opts s) then so_fuzzy_key_press sops (syl s) ev else so_key_press sops (syl s) ev) = (sy, KCommit) ->
+  entering_syllable_next dops sops s ev = Ok (s', t) ->
+  (com s' = com s /\ t = ToState Entering) \/
+  (symbols (inner (com s')) = insert_at (cursor (com s)) (SymSyl (so_read sops sy)) (symbols (inner (com s))) /\
+   cursor (com s') = S (cursor (com s)) /\
+   (cursor_stack (com s') = cursor_stack (com s) \/
+    (o_engine (opts s) = EngSimple /\ cursor_stack (com s') = S (cursor (com s)) :: cursor_stack (com s))) /\
+   dict s' = dict s /\ opts s' = opts s /\ commit_buf s' = commit_buf s).
+Proof. intros D SY dops sops s s' ev t sy. exact (syllable_commit_key dops sops s ev s' t sy). Qed.
+Print Assumptions C05_completed_syllable_goes_in_at_the_cursor.
